@@ -7,7 +7,7 @@ cd /verif
 cp /repo/go.sum go.sum
 mkdir -p bin .cache evidence replays
 go build -o bin/vinstr ./cmd/vinstr
-for h in harness/c*; do
+for h in harness/c[0-9][0-9]; do
   id=$(basename $h | tr a-z A-Z)
   VERIF_BUILD_ONLY=1 ./vcheck $id quick || { echo "setup: build of $h failed"; exit 1; }
 done
